@@ -44,4 +44,10 @@ PROP = {'title': 'Ranges and iterators enumerate exactly their documented sequen
                  'for them; element stability across ++it is asserted because their headers declare operator* to return a value',
                  'cyclic_iterator over random access iterators: for a walked range that wraps around the boundary last - first is the '
                  '(negative) distance of the underlying iterators as documented; std::distance/std::equal and it_j - it_i == j - i are '
-                 'asserted only for walks that do not wrap (the wrapped cases are counted in the evidence)']}
+                 'asserted only for walks that do not wrap (the wrapped cases are counted in the evidence)',
+                 'audit: recorded as info counters, never a verdict: iterator_traits/typedef equality (value_type, reference, '
+                 'difference_type, iterator_category, pointer), the exact result type of adapt_range, a forward category without a real '
+                 'reference type, and the distance of a wrapped cyclic walk; no static_assert on fcppt typedefs remains in the harness',
+                 'audit: for input-category iterators (int_iterator, enum_::iterator, spiral_iterator) every position is reached by its '
+                 'own walk from a fresh range.begin(); no iterator is used after a copy of it was incremented; saved copies are re-used only '
+                 'for forward or stronger categories; moved-from iterators are never inspected']}
